@@ -328,10 +328,13 @@ class SimDevice:
         if cmd == 0x45:   # RETRIES
             return 0x9000, self._hdr(cmd, self.retries)
         if cmd == 0x41:   # SEND_PIN
-            if len(data) != 2 or data[0] >= len(self.pinbuf) - 1:
+            # firmware/src/ledger/ui/src/pin.c update_pin_buffer: one byte per call; indices 0..MAX_PIN_LENGTH (8)
+            # are stored (NUL-terminated), any other index is silently ignored
+            if len(data) != 2:
                 return 0x6A01, b""
-            self.pinbuf[data[0]] = data[1]
-            self.pinbuf[data[0] + 1] = 0
+            if data[0] <= 8:
+                self.pinbuf[data[0]] = data[1]
+                self.pinbuf[data[0] + 1] = 0
             return 0x9000, self._hdr(cmd)
         if cmd == 0xFE:   # UNLOCK
             sent = bytes(self.pinbuf).split(b"\x00")[0]
